@@ -13,8 +13,10 @@ Has(k) == k \in Range(members)
 Init == l = 1 /\ members = <<>> /\ taint = ""
 \* a different NUMBER of emissions is a timing artefact of asynchronous delivery (content cannot change a count):
 \* such a pair is inconclusive and is not counted as validated
-Unstable(e) == e.a = "cmp" /\ Len(e.fresh) # Len(e.reused)
-Accept(e) == e.a # "cmp" \/ e.fresh = e.reused \/ (Unstable(e) /\ PrintT(<<"UNSTABLE", l>>))
+\* The harness aligns the emissions of both runs by a key that does not depend on caller-derived bytes (media number, RTX original
+\* number, FEC base + mask); emissions that only one run produced (asynchronous delivery cut off) are counted in `unpaired`
+\* and not compared.
+Accept(e) == e.a # "cmp" \/ e.fresh = e.reused
 \* first differing emission, for the diagnostic
 Diff(e) == IF Len(e.fresh) # Len(e.reused) THEN <<"count", Len(e.fresh), Len(e.reused)>>
            ELSE LET i == CHOOSE j \in DOMAIN e.fresh : e.fresh[j] # e.reused[j] IN <<"item", e.fresh[i], e.reused[i]>>
